@@ -151,10 +151,17 @@ def hDevShrimpLen : Handler := do
   | some l => pure (outF l)
   | none => throw "empty table"
 
+/-- `mem.decides kind(0 snapshot|1 alias) realloc n (pid x y)^n pid x y` -/
+def hMemDecides : Handler := do
+  let k ← getN; let realloc ← getB
+  let mem ← getList (do let p ← getN; let x ← getF; let y ← getF; pure (⟨p, x, y⟩ : Memory.Rec Float))
+  let p ← getN; let x ← getF; let y ← getF
+  pure (outB (Memory.decides (if k == 0 then .snapshot else .alias) mem realloc ⟨p, x, y⟩))
+
 def ibmHandlers : List (String × Handler) :=
   [("sed.update", hSedUpdate), ("mine.update", hMineUpdate), ("sed.tau", hSedTau),
    ("egg.update", hEgg), ("lice.update", hLice), ("larva.update", hLarva),
    ("sandeel.z", hSandeelZ), ("eel.z", hEelZ), ("shrimp.vert", hShrimpVert),
-   ("shrimp.growth", hShrimpGrowth), ("vps.z", hVpsZ), ("vps.update", hVpsUpdate), ("mem.stuck", hMemStuck), ("grain.cell", hGrainCell), ("grain.taucrit", hGrainTaucrit), ("sed.ladis", hLadis), ("dev.sandeel", hDevSandeel), ("dev.hatchtime", hDevHatch), ("dev.shrimplen", hDevShrimpLen)]
+   ("shrimp.growth", hShrimpGrowth), ("vps.z", hVpsZ), ("vps.update", hVpsUpdate), ("mem.stuck", hMemStuck), ("mem.decides", hMemDecides), ("grain.cell", hGrainCell), ("grain.taucrit", hGrainTaucrit), ("sed.ladis", hLadis), ("dev.sandeel", hDevSandeel), ("dev.hatchtime", hDevHatch), ("dev.shrimplen", hDevShrimpLen)]
 
 end Driver
